@@ -449,36 +449,37 @@ pub fn lit(v: i32, style: LitStyle, rng: &mut Rng) -> String {
     } else {
         style
     };
-    let zeros = if rng.chance(1, 5) { "0" } else { "" };
+    // the same number written differently: leading zeros (one, a few, more than any digit count),
+    // an explicit plus sign, a negative zero, prefixes and hex digits in either case
+    let zeros: &str = match rng.below(12) {
+        0 | 1 => "0",
+        2 => "000",
+        3 => "0000000000000000000000",
+        _ => "",
+    };
+    let sign = if v < 0 || (v == 0 && rng.chance(1, 6)) {
+        "-"
+    } else if rng.chance(1, 6) {
+        "+"
+    } else {
+        ""
+    };
+    let mag = (v as i64).abs();
+    let hex_digits = |upper: bool, rng: &mut Rng| -> String {
+        let h = format!("{:x}", mag);
+        if rng.chance(1, 4) {
+            h.chars().map(|c| if rng.bool() { c.to_ascii_uppercase() } else { c }).collect()
+        } else if upper {
+            h.to_uppercase()
+        } else {
+            h
+        }
+    };
     match style {
-        LitStyle::Dec | LitStyle::Any => {
-            if v < 0 {
-                format!("#-{}{}", zeros, -(v as i64))
-            } else {
-                format!("#{}{}", zeros, v)
-            }
-        }
-        LitStyle::HexLower => {
-            if v < 0 {
-                format!("x-{}{:x}", zeros, -(v as i64))
-            } else {
-                format!("x{}{:x}", zeros, v)
-            }
-        }
-        LitStyle::HexUpper => {
-            if v < 0 {
-                format!("X-{}{:X}", zeros, -(v as i64))
-            } else {
-                format!("X{}{:X}", zeros, v)
-            }
-        }
-        LitStyle::Hex0x => {
-            if v < 0 {
-                format!("0x-{}{:x}", zeros, -(v as i64))
-            } else {
-                format!("0x{}{:X}", zeros, v)
-            }
-        }
+        LitStyle::Dec | LitStyle::Any => format!("#{}{}{}", sign, zeros, mag),
+        LitStyle::HexLower => format!("x{}{}{}", sign, zeros, hex_digits(false, rng)),
+        LitStyle::HexUpper => format!("X{}{}{}", sign, zeros, hex_digits(true, rng)),
+        LitStyle::Hex0x => format!("{}{}{}{}", if rng.chance(1, 4) { "0X" } else { "0x" }, sign, zeros, hex_digits(rng.bool(), rng)),
     }
 }
 
@@ -512,6 +513,11 @@ const COMMENTS: &[&str] = &[
     "; .fill x0 \"quoted\" label:",
     ";halt",
     "; trailing   ",
+    "; it's \"quoted\"; and again; 'single'",
+    ";\t\ttabs\tin\ta\tcomment",
+    "; x3000 #5 r0 .orig .end .break",
+    // longer than any fixed-size line buffer
+    "; ---------------------------------------------------------------------------------------------------------------------------------------------------------------------------------------------------------------------------------------------------------------------------------------------------------------------------- long line",
 ];
 const MB_COMMENTS: &[&str] = &["; caf\u{e9} \u{2713}", "; \u{1F34B} lemon", "; \u{e9}"];
 
